@@ -36,7 +36,10 @@ def run(ctx, prop, parts_quick, parts_thorough, sample_quick=None, modes=(16, 32
     ops = set(insflow.grammar_opcodes())
     skipped = [c for c in cells if c["mn"] not in ops]
     cells = [c for c in cells if c["mn"] in ops]
-    R = insflow.run_cells(ctx, {b: cells for b in modes}, batch=batch)
+    preambles = ((),)
+    if prop == "C18":     # the directive every haribote source starts with must not change which form is chosen
+        preambles = ((), ({"k": "cfg", "mn": "INSTRSET", "s": '"i486p"'},), ({"k": "cfg", "mn": "INSTRSET", "s": '"i386"'}, {"k": "cfg", "mn": "OPTIMIZE", "s": "1"}))
+    R = insflow.run_cells(ctx, {b: cells for b in modes}, batch=batch, preambles=preambles)
     if prop == "C02":
         # the same effective addresses with the displacement written as an EQU constant; >300 EQU references in one run
         memcells = [c for c in cells if any(o["t"] == "m" and o.get("hd") and o.get("d", 0) > 0 and (o.get("b", -1) != -1 or o.get("x", -1) != -1 or True) for o in c["ops"])]
